@@ -50,6 +50,19 @@ pub fn with_stream_variant_items<T>(items: Vec<u32>, f: impl FnOnce() -> T) -> T
     r
 }
 
+thread_local! {
+    static STREAM_CLOSES: std::cell::Cell<bool> = const { std::cell::Cell::new(false) };
+}
+
+/// The stream variant with a stream that yields these items and then *ends*: the end of the
+/// stream is one more way for the actor to end, whatever is in its mailbox at that moment.
+pub fn with_stream_variant_closing<T>(items: Vec<u32>, f: impl FnOnce() -> T) -> T {
+    STREAM_CLOSES.with(|s| s.set(true));
+    let r = with_stream_variant_items(items, f);
+    STREAM_CLOSES.with(|s| s.set(false));
+    r
+}
+
 /// Runs a case generator with the "other event loop" switch on: every `ProgScene` built through
 /// [`attach_for`] then spawns its actor attached to a stream that is open but never ready, so the
 /// same programs and oracles exercise `create_loop_on_stream` instead of `create_loop`.
@@ -71,7 +84,7 @@ pub fn attach_for(mailbox: crate::scenes::Mailbox) -> Attach {
             crate::scenes::Mailbox::U => StreamVia::BuildOnStream,
             crate::scenes::Mailbox::B(n) => StreamVia::BoundedOnStream(n),
         };
-        Attach::Stream { via, prefill: STREAM_ITEMS.with(|s| s.borrow().clone()), close: false }
+        Attach::Stream { via, prefill: STREAM_ITEMS.with(|s| s.borrow().clone()), close: STREAM_CLOSES.with(|s| s.get()) }
     } else {
         Attach::None
     }
